@@ -29,7 +29,6 @@ import (
 	"reflect"
 	"slices"
 	"sort"
-	"sync/atomic"
 	"time"
 	"unsafe"
 
@@ -361,9 +360,11 @@ func (x *router) dispatchToRoutees(ctx *ReceiveContext, msg any, routees []*PID)
 func (x *router) routeByStrategy(ctx *ReceiveContext, msg any, routees []*PID) {
 	switch x.routingStrategy {
 	case RoundRobinRouting:
-		n := atomic.AddUint32(&x.roundRobinNext, 1)
-		routee := routees[(int(n)-1)%len(routees)]
-		ctx.Tell(routee, msg)
+		// the router handles one message at a time: keep the cursor inside
+		// [0, len) so that it never wraps and never yields a negative index
+		idx := x.roundRobinNext % uint32(len(routees))
+		x.roundRobinNext = idx + 1
+		ctx.Tell(routees[idx], msg)
 	case RandomRouting:
 		routee := routees[rand.IntN(len(routees))] //nolint:gosec
 		ctx.Tell(routee, msg)
@@ -615,6 +616,8 @@ func (x *router) availableRoutees() ([]*PID, bool) {
 		}
 		routees = append(routees, routee)
 	}
+	// map iteration order is unspecified: round-robin needs one fixed enumeration
+	sort.Slice(routees, func(i, j int) bool { return routees[i].ID() < routees[j].ID() })
 	return routees, len(routees) > 0
 }
 
